@@ -223,3 +223,35 @@ M("C01", "twin-index-loop", "operators.py", P_LOOP, """        for k in range(le
         return 0
 """, "H")
 M("C01", "twin-eps-mult", "operators.py", "            p_eps = p_costs / epsilon\n            q_eps = q_costs / epsilon\n", "            inv = 1.0 / epsilon\n            p_eps = p_costs * inv\n            q_eps = q_costs * inv\n", "H")
+
+# ---------------------------------------------------------------- C17
+M("C17", "pop-filter-ge", "problem.py", "            if individual.population_id == population_id:\n                individuals.append(individual)", "            if individual.population_id >= population_id:\n                individuals.append(individual)")
+M("C17", "pop-filter-ne", "problem.py", "            if individual.population_id == population_id:\n                individuals.append(individual)", "            if individual.population_id != population_id:\n                individuals.append(individual)")
+M("C17", "last-pop-min", "problem.py", "            if individual.population_id > max_index:", "            if individual.population_id < max_index:")
+M("C17", "results-pop-default-zero", "results.py", "        if population_id == -1:\n            # TODO : last_population returns all the populations instead of last index population\n            individuals = self.problem.last_population()\n        else:", "        if population_id == -1:\n            # TODO : last_population returns all the populations instead of last index population\n            individuals = self.problem.population(0)\n        else:")
+M("C17", "sort-before-reorder", "results.py", "            goal_values = self.sort_list(parameter_values, goal_values)\n            parameter_values.sort()\n", "            parameter_values.sort()\n            goal_values = self.sort_list(parameter_values, goal_values)\n")
+M("C17", "sort-without-partner", "results.py", "            values_2 = self.sort_list(values_1, values_2)\n            values_1.sort()\n", "            values_1.sort()\n")
+M("C17", "partner-not-sorted-keys", "results.py", "            parameter_values = self.sort_list(goal_values, parameter_values)\n            goal_values.sort()\n", "            parameter_values = self.sort_list(goal_values, parameter_values)\n")
+M("C17", "sort-list-returns-keys", "results.py", "sorted_list = [x for _, x in sorted(zipped_pairs)]", "sorted_list = [x for x, _ in sorted(zipped_pairs)]")
+M("C17", "sort-list-reverse", "results.py", "sorted_list = [x for _, x in sorted(zipped_pairs)]", "sorted_list = [x for _, x in sorted(zipped_pairs, reverse=True)]")
+M("C17", "keys-sorted-reverse", "results.py", "            goal_values = self.sort_list(parameter_values, goal_values)\n            parameter_values.sort()\n", "            goal_values = self.sort_list(parameter_values, goal_values)\n            parameter_values.sort(reverse=True)\n")
+M("C17", "find-opt-crossed", "results.py", "                min_l = [min(self.problem.individuals, key=lambda x: x.costs[index])]\n        else:\n            if len(self.problem.individuals) > 0:\n                min_l = [max(", "                min_l = [max(self.problem.individuals, key=lambda x: x.costs[index])]\n        else:\n            if len(self.problem.individuals) > 0:\n                min_l = [min(")
+M("C17", "find-opt-always-min", "results.py", "                min_l = [max(self.problem.individuals, key=lambda x: x.costs[index])]", "                min_l = [min(self.problem.individuals, key=lambda x: x.costs[index])]")
+M("C17", "find-opt-first-cost", "results.py", "                min_l = [max(self.problem.individuals, key=lambda x: x.costs[index])]", "                min_l = [max(self.problem.individuals, key=lambda x: x.costs[0])]")
+M("C17", "find-opt-none-is-max", "results.py", "        if criteria == 'minimize' or criteria is None:", "        if criteria == 'minimize':")
+M("C17", "gd-axis", "quality_indicator.py", "minimums = np.nanmin(distances, axis=0)", "minimums = np.nanmin(distances, axis=1)")
+M("C17", "gd-swapped-args", "quality_indicator.py", "distances = spatial.distance.cdist(reference, computed, metric=norm)", "distances = spatial.distance.cdist(computed, reference, metric=norm)")
+M("C17", "gd-divisor", "quality_indicator.py", "return np.sum(minimums) / len(computed)", "return np.sum(minimums) / len(reference)")
+M("C17", "eps-inner-max", "quality_indicator.py", "eps_j = min(eps_k, eps_j)", "eps_j = max(eps_k, eps_j)")
+M("C17", "eps-outer-min", "quality_indicator.py", "eps = max(eps, eps_j)", "eps = min(eps, eps_j)")
+M("C17", "eps-diff-reversed", "quality_indicator.py", "eps_k = max(np.subtract(comp_val, ref_val))", "eps_k = max(np.subtract(ref_val, comp_val))")
+M("C17", "eps-loops-swapped", "quality_indicator.py", "    for ref_val in reference:\n        eps_j = np.inf\n        for comp_val in computed:", "    for ref_val in computed:\n        eps_j = np.inf\n        for comp_val in reference:")
+M("C17", "eps-start-negative", "quality_indicator.py", "    eps = 0.0\n    for ref_val", "    eps = -np.inf\n    for ref_val")
+M("C17", "eps-min-not-reset", "quality_indicator.py", "    eps = 0.0\n    for ref_val in reference:\n        eps_j = np.inf\n", "    eps = 0.0\n    eps_j = np.inf\n    for ref_val in reference:\n")
+M("C17", "np-infty", "quality_indicator.py", "eps_j = np.inf\n", "eps_j = np.infty\n")
+M("C17", "table-foreign-costs", "results.py", "                out.append(individual.vector + individual.costs)", "                out.append(individual.vector + individuals[0].costs)")
+M("C17", "lockstep-conditional", "results.py", "            parameter_values.append(individual.vector[parameter_index])\n            goal_values.append(individual.costs[goal_index])\n", "            parameter_values.append(individual.vector[parameter_index])\n            if individual.costs[goal_index] is not None:\n                goal_values.append(individual.costs[goal_index])\n")
+# twins
+M("C17", "twin-pop-comprehension", "problem.py", "        individuals = []\n        for individual in self.individuals:\n            if individual.population_id == population_id:\n                individuals.append(individual)\n\n        return individuals\n\n    def last_population", "        return [individual for individual in self.individuals if individual.population_id == population_id]\n\n    def last_population", "H")
+M("C17", "twin-gd-mean", "quality_indicator.py", "return np.sum(minimums) / len(computed)", "return np.mean(minimums)", "H")
+M("C17", "twin-find-opt-order", "results.py", "        if criteria == 'minimize' or criteria is None:", "        if criteria is None or criteria == 'minimize':", "H")
